@@ -41,6 +41,14 @@ CHECKS = {
             "exploration: status-code and routing-grid sub-spaces exhaustive, request shapes (1..5 Via values, parameters, display names, IPv4/IPv6/host names, datagram and inbound/outbound connections) sampled",
             "trusts ref_route, WireMsg, mock transports; shapes of the two open findings are excluded by construction and counted",
             "DESIGN.md 3/C09", "E-world"),
+    'C10': ("exhaustive enumeration of arrival permutations (n<=4, thorough n<=5/6) x roles x start CSeq values incl. u32::MAX, of guard-drop positions and of back-to-back bursts + proptest over arrival sequences with duplicates, near-miss keys, ACKs, guard drops; oracle = independent reorder-buffer reference model (ref_reorder)",
+            "exploration, exhaustive over the stated permutation sub-spaces for UAS- and UAC-created dialogs; random sequences sampled; decides exactly-once, increasing CSeq order, release in the step the gap is filled, pass-through of non-matching requests and of the ACK, silence after guard drop, empty backlog, no overflow at u32::MAX",
+            "trusts ref_reorder, tokio's paused clock, hook H3 (backlog size); single-threaded cooperative schedules only; the open finding (overlapping arrivals interleaved) is keyed by a narrow signature",
+            "DESIGN.md 3/C10", "E-world"),
+    'C12': ("exhaustive enumeration of ACK / PRACK arrival grids (+-1 ms around every retransmission instant, matching and non-matching CSeq/RAck) + proptest over races of application ops and network ops at shared instants with tokio select seeds, under a paused clock; oracle = RFC 3261 13.3.1.4 / RFC 3262 schedules and an admissible-winner model over the wire log",
+            "exploration: accept_retransmit and reliable_provisional grids exhaustive; races sampled (1..3 app ops x 1..4 network ops over 9 instants, both orders at shared instants); decides exactly one final response, the winner among same-instant decisive events, CANCEL/BYE answered with their own Via/CSeq, 2xx retransmission T1 doubling to T2 until the matching ACK / 64*T1, reliable 1xx doubling until the matching PRACK",
+            "trusts tokio's paused clock, hook H2, WireMsg, ref_tsx; give-up windows [64*T1, 64*T1+T2] and the total duration of reliable-1xx retransmission are not asserted",
+            "DESIGN.md 3/C12", "E-world"),
     'C13': ("exhaustive enumeration of all response histories up to length 4 (thorough 5) over a reduced alphabet + proptest over richer histories, driving the real Initiator/Early under a paused tokio clock; oracle = reference classifier over the set of To-tags seen so far, recipients identified by unique X-Seq markers",
             "exploration: every history of <=4 responses over {100,180,200,486} x {no tag,t0,t1} (11 110 cases); random histories of 1..10 responses with 3 tags, optional Contact/Record-Route/Supported/RSeq/Session-Expires; decides recipient and variant per response, exactly-once delivery, session contents from that 2xx, termination of early dialogs, completion 64*T1 after the first 2xx",
             "trusts tokio's paused clock, hook H2, the mock transport; the application model polls every Early and drops it once it yields a session or Terminated",
@@ -49,6 +57,10 @@ CHECKS = {
             "exploration, exhaustive over the finite configuration product (datagram subsets x factory configs incl. registration order and connect failure x pre-existing connections x sip/sips x IPv4/IPv6 literal x port x pinning); sequences sampled so that earlier requests create the pre-existing connections",
             "trusts the mock transports/factories, ref_select, tokio paused clock; HashMap order handled by membership in the admissible set",
             "DESIGN.md 3/C14", "E-world"),
+    'C17': ("exhaustive enumeration of the value grid (role x refresher parameter x Session-Expires / Min-SE / Expires / Min-Expires edge values x short refresh histories) + proptest over random u32 values and histories, real Initiator/Acceptor/Session/Registration under a paused clock with a scripted peer; oracle = timeline monitor (refresh strictly before last-refresh + SE; non-refresher BYE in [SE, SE+64 s]; REGISTER refresh before grant + L)",
+            "exploration: grids enumerated completely, random histories sampled; decides no panic for any u32 value, refresh-before-expiry on both roles, interval restart on every refresh sent/received, BYE only after the full interval, registration refresh timing, Call-ID reuse and CSeq +1",
+            "trusts tokio's paused clock (intervals above 67 000 000 s are only checked for establishment + a 120 s window because tokio's timer wheel cannot represent them), hook H2, WireMsg",
+            "DESIGN.md 3/C17", "E-world"),
     'C18': ("proptest over the cross product of Digest challenge parameters and challenge sequences, driving the public UacAuthSession API; oracle = independent RFC 7616/2617/8760 verifier (ref_digest) recomputing the response from the stored credentials and the printed header",
             "exploration: algorithm x qop-set x userhash x opaque x stale x UTF-8 realm/nonce/user/password x method x URI x body, 1..5 reuses with nc tracking, multi-realm / mixed WWW+Proxy / repeated-nonce sequences",
             "trusts md5/sha2 primitive crates and the 300-line ref_digest (unit-tested against the RFC 2617/7616 vectors)",
